@@ -102,6 +102,8 @@ func H16Text() {
 		t.Row()
 		add('C', 2, 0, 1, false, false)
 		add('D', 2, 1, 1, true, false)
+		// a last cell that is empty or holds only blanks prints nothing
+		t.Cell([]string{"", " ", "   "}[vndChoice("blankcell", 3)])
 	case 1: // label column plus a header over the two value columns
 		t.Row()
 		t.Cell("")
